@@ -158,7 +158,7 @@ def case_b(case):
     ir = IR(P.layout)
     I = new_interp(P)
     res = {"paths": 0, "violations": [], "case": list(case)}
-    cfg = {"plain": {}, "prefix": {"prefix": "OP"}, "pkg": {"package": "com.a.b"}}[cfgname]
+    cfg = {"plain": {}, "prefix": {"prefix": "OP"}, "pkg": {"package": "com.a.b"}, "acronyms": {"uppercase_acronyms": ["AB", "K"]}}[cfgname]
 
     def syms():
         return [z3.BitVec("o%d" % k, 32) for k in range(on)], [z3.BitVec("k%d" % k, 32) for k in range(kn)]
@@ -285,6 +285,11 @@ def run(rep, tier, only=None):
         if lang in ("swift", "kotlin"):
             b_cases.append((lang, "struct", "sym", 2, 2, "prefix"))
             b_cases.append((lang, "variant", "sym", 2, 2, "prefix"))
+        if lang == "go":
+            # upper-case acronyms change Go identifiers, never the JSON key: the symbolic key may contain `Ab` / `K`
+            for kn in (1, 2, 3):
+                b_cases.append((lang, "struct", "sym", kn, 2, "acronyms"))
+                b_cases.append((lang, "variant", "same", kn, 1, "acronyms"))
     rep.bounds = {"parser": "identifier: %d symbolic chars over [a-z0-9_] (lengths 1..%d) or one of %d keywords (raw where Rust requires); rename key: <=3 symbolic chars over [A-Za-z0-9_-]; 10 rename_all settings on struct / variant / enum; %d attribute arrangements" % (maxn, maxn, len(KEYWORDS), len(ARR)),
                   "back ends": "6 languages x {struct, struct variant} x renamed key of 1..3 symbolic chars x original = same / symbolic / keyword; 3 members; prefix variants for Swift/Kotlin"}
     rep.outside = ["rename(serialize = .., deserialize = ..), rename_all_fields", "keys with characters outside [A-Za-z0-9_-]", "more than 3 members", "Scala keys containing '-' (Scala output carries no key binding)"]
@@ -353,7 +358,7 @@ def run(rep, tier, only=None):
                     rep.inconc("B %s: %s" % (case, v)); continue
                 src = render_b(case, v)
                 cfg = dict(bharness.DEFAULT_CFG.get(case[0], {}))
-                cfg.update({"plain": {}, "prefix": {"prefix": "OP"}, "pkg": {"package": "com.a.b"}}[case[5]])
+                cfg.update({"plain": {}, "prefix": {"prefix": "OP"}, "pkg": {"package": "com.a.b"}, "acronyms": {"uppercase_acronyms": ["AB", "K"]}}[case[5]])
                 real = nat.ask({"op": "generate", "lang": case[0], "files": [{"source": src}], "config": cfg})
                 rep.validated += 1
                 out = real.get("out", {}).get("", None)
